@@ -17,6 +17,9 @@ pub struct AnsiElementIterator<'a> {
     // Number of text bytes seen since the last element was emitted.
     text_length: usize,
 
+    // Byte offset of the end of the last text character seen.
+    text_end: usize,
+
     // Byte offset of start of current element.
     start: usize,
 
@@ -65,6 +68,7 @@ impl<'a> AnsiElementIterator<'a> {
             bytes: s.bytes(),
             element: None,
             text_length: 0,
+            text_end: 0,
             start: 0,
             pos: 0,
         }
@@ -76,6 +80,9 @@ impl<'a> AnsiElementIterator<'a> {
         self.element = performer.element;
         self.text_length += performer.text_length;
         self.pos += 1;
+        if performer.text_length > 0 {
+            self.text_end = self.pos;
+        }
     }
 }
 
@@ -97,7 +104,9 @@ impl Iterator for AnsiElementIterator<'_> {
             // text, which must be emitted first.
             if self.text_length > 0 {
                 let start = self.start;
-                self.start += self.text_length;
+                // Not `start + text_length`: the parser may have consumed bytes which are
+                // neither text nor part of an element (malformed or ignored sequences).
+                self.start = self.text_end;
                 self.text_length = 0;
                 self.element = Some(element);
                 return Some(Element::Text(start, self.start));
